@@ -22,6 +22,7 @@ RULE = (
     "distinct = distinct (operation kinds, formats, placement classes); non-trivial = a path is rewritten between two reads/runs, or the placement is partial (input smaller/larger than the detector or shifted)"
 )
 ASSUMPTIONS = [
+    "FITS inputs come in two layouts: image in the primary HDU, or empty primary HDU with the image in the first extension (the version keyword is in both headers); a rewrite may change the layout of a path",
     "alignment keywords follow the library's documented convention (row 0 is the bottom row): the reference places bottom_left at offset (0, 0), top_right at (rows - in_rows, cols - in_cols), center at the truncated half difference",
     "a run must reflect the file content at the time of the run; only the default cache_enabled=False configuration is exercised",
     "FITS files are written with astropy, text files with numpy.savetxt(fmt='%.17g')",
